@@ -122,7 +122,19 @@ def renumber(text):
 def compile_text(y):
     from teaal.parse import Einsum, Mapping
     from teaal.trans.hifiber import HiFiber
-    return str(HiFiber(Einsum.from_str(y), Mapping.from_str(y)))
+    es = Einsum.from_str(y)
+    hf = HiFiber(es, Mapping.from_str(y))
+    compile_text.last = (hf, es)
+    return str(hf)
+
+
+def layout_problems():
+    """rank-id protocol of C07 on the program compiled last: every tensor variable (intermediates included) holds an
+    object whose rank ids spell its name, set on an object with that many ranks - 'left in its declared layout'"""
+    from props import C07
+    hf, es = compile_text.last
+    probs, _o, _i = C07.check_tree(hf.hifiber, dict(es.get_declaration()))
+    return probs
 
 
 def intermediates_named_as_read(text, ends):
@@ -161,8 +173,10 @@ def intermediates_named_as_read(text, ends):
 
 def check_cascade(combo, rank_order):
     """returns (status, detail): status in ok | skip | FAIL"""
+    lay = []
     try:
         texts = [compile_text(build_yaml(combo, rank_order, upto=i)) for i in range(len(combo))]
+        lay = layout_problems()
     except Exception as e:      # noqa
         casc_err = "%s: %s" % (type(e).__name__, e)
         texts = None
@@ -187,6 +201,8 @@ def check_cascade(combo, rank_order):
         if renumber(mine) != renumber(alone[i]):
             return "FAIL", "Einsum %d differs from its stand-alone compilation" % i
         prev = lines
+    if lay:
+        return "FAIL", "intermediate layout: " + lay[0]
     # intermediates are left under exactly the name later Einsums read
     steps = {n: d for n, _, d, _ in STEPS}
     err, last = intermediates_named_as_read(texts[-1], ends)
@@ -199,9 +215,126 @@ def check_cascade(combo, rank_order):
     return "ok", ""
 
 
+# hand-written cascades outside the generator's shape: one tensor produced by two Einsums (legal: tests/integration/
+# example7.yaml does it) with a mapping entry that then applies to both producers
+EXTRA_CASCADES = [
+    ("same tensor produced twice, spacetime with slip", """einsum:
+  declaration:
+    A: [K, M]
+    B: [K, N]
+    C: [M, N]
+    Y: [M, N]
+    Z: [M, N]
+  expressions:
+    - Z[m, n] = A[k, m] * B[k, n]
+    - Y[m, n] = Z[m, n] * C[m, n]
+    - Z[m, n] = Y[m, n] * A[k, m]
+mapping:
+  loop-order:
+    Z: [K, M, N]
+  spacetime:
+    Z:
+      space: [M]
+      time: [K, N]
+      opt: slip
+"""),
+    ("same tensor produced twice, partitioned", """einsum:
+  declaration:
+    A: [K, M]
+    B: [K, M]
+    Z: [M]
+  expressions:
+    - Z[m] = A[k, m]
+    - Z[m] = B[k, m]
+mapping:
+  partitioning:
+    Z:
+      K: [uniform_shape(4)]
+"""),
+    ("the same rank of one tensor split into 1 and then 2 levels by consecutive Einsums", """einsum:
+  declaration:
+    A: [K, M]
+    T: [M]
+    Z: [M]
+  expressions:
+    - T[m] = A[k, m]
+    - Z[m] = A[k, m] * T[m]
+mapping:
+  partitioning:
+    T:
+      K: [uniform_shape(4)]
+    Z:
+      K: [uniform_shape(8), uniform_shape(4)]
+"""),
+    ("three flattened output ranks read by the next Einsum", """einsum:
+  declaration:
+    A: [M, N, O, P]
+    T: [M, N, O, P]
+    Z: [M, P]
+  expressions:
+    - T[m, n, o, p] = A[m, n, o, p]
+    - Z[m, p] = T[m, n, o, p]
+mapping:
+  partitioning:
+    T:
+      (N, O, P): [flatten()]
+  loop-order:
+    T: [M, NOP]
+"""),
+]
+
+
+def check_yaml_cascade(y):
+    """the same question for a hand-written cascade: prefix i extends prefix i-1 and its new text equals Einsum i alone"""
+    import io
+    from ruamel.yaml import YAML
+
+    def dump(doc):
+        buf = io.StringIO()
+        yy = YAML(typ="safe")
+        yy.default_flow_style = False
+        yy.dump(doc, buf)
+        return buf.getvalue()
+    doc = YAML(typ="safe").load(y)
+    exprs = list(doc["einsum"]["expressions"])
+    prev = []
+    for i in range(len(exprs)):
+        d1 = YAML(typ="safe").load(y)
+        d1["einsum"]["expressions"] = exprs[:i + 1]
+        d2 = YAML(typ="safe").load(y)
+        d2["einsum"]["expressions"] = [exprs[i]]
+        try:
+            alone = compile_text(dump(d2))
+        except Exception:      # noqa
+            return "skip", "Einsum %d is not compilable on its own" % i
+        try:
+            casc = compile_text(dump(d1))
+        except Exception as e:      # noqa
+            return "FAIL", "every Einsum compiles alone but the prefix 0..%d raises %s: %s" % (i, type(e).__name__, e)
+        lines = casc.split("\n")
+        if lines[:len(prev)] != prev:
+            return "FAIL", "text of prefix 0..%d does not extend the text of prefix 0..%d" % (i, i - 1)
+        if renumber("\n".join(lines[len(prev):])) != renumber(alone):
+            return "FAIL", "Einsum %d differs from its stand-alone compilation" % i
+        prev = lines
+        pr = layout_problems()
+        if pr:
+            return "FAIL", "intermediate layout: " + pr[0]
+    return "ok", ""
+
+
 def sweep(maxlen=2, limit=None, stride=1, offset=0):
     n = 0
     evaluated, distinct, failures, samples = 0, set(), [], []
+    for name, y in EXTRA_CASCADES:
+        st, detail = check_yaml_cascade(y)
+        if st == "skip":
+            continue
+        evaluated += 1
+        distinct.add(name)
+        if st == "FAIL":
+            failures.append({"name": "bounded/cascade-vs-standalone", "detail": "%s: %s" % (name, detail),
+                             "witness": {"cascade": name, "yaml": y, "what": detail}})
     for ro in RANK_ORDERS:
         for combo in cascades(maxlen):
             n += 1
